@@ -291,7 +291,7 @@ def r_zone_flow(rep, prog):
                           "translation failure does not return Err", b.span)
         if m == "put":
             errs = [x for x in T.walk(tm.operand(it["args"][1])) if err_variant_of_term(x)]
-            rep.check(any(err_variant_of_term(x) == "Argument" for x in errs), rule, "%s|error-kind" % fn,
+            rep.check(any(err_variant_of_term(x) == "Argument" for x in errs) or _fail_returns_argument(ps, prog, sub_sites, 1 - want), rule, "%s|error-kind" % fn,
                       "None is mapped to Error::Argument", "None is not mapped to Error::Argument", it["span"])
         # the request / order is forwarded unchanged
         other = tm.operand(it["args"][2])
@@ -305,6 +305,7 @@ def _zone_get_direct(rep, rule, fn, b, tm, prog, ib, it, farg):
     alts = T.alternatives(tm, farg)
     some_alts = []
     okc = True
+    has_arg = True
     detail = []
     for a in alts:
         if a[0] == "agg" and a[1].startswith("adt:core::option::Option::None"):
@@ -313,7 +314,7 @@ def _zone_get_direct(rep, rule, fn, b, tm, prog, ib, it, farg):
         subs = [x for x in T.walk(a) if x[0] == "call" and x[1] == "usize::checked_sub"]
         good = bool(subs) and all(T.mentions_param(c[2][0], "frame") and T.mentions_field(c[2][1], "offset")
                                   and T.mentions_param(c[2][1], "self") for c in subs)
-        good = good and any(err_variant_of_term(x) == "Argument" for x in T.walk(a))
+        has_arg = has_arg and any(err_variant_of_term(x) == "Argument" for x in T.walk(a))
         good = good and not _mentions_param_outside(a, "frame", lambda x: x[0] == "call" and x[1] == "usize::checked_sub")
         okc = okc and good
         some_alts.append(a)
@@ -344,6 +345,21 @@ def _zone_get_direct(rep, rule, fn, b, tm, prog, ib, it, farg):
         if any(env.get(("c", sb)) == 0 for sb in sub_sites):
             rep.check(ps.ret_discr(rn) == 1, rule, "%s|fail-returns-err" % fn, "translation failure returns Err",
                       "a frame below the zone offset does not make get return Err", b.span)
+    rep.check((has_arg and bool(some_alts)) or _fail_returns_argument(ps, prog, sub_sites, 0), rule, "%s|error-kind" % fn,
+              "the underflow is reported as Error::Argument", "a frame below the zone offset is not reported as Error::Argument", it["span"])
+
+
+def _fail_returns_argument(ps, prog, sub_sites, fail_status):
+    """Every return reached with a failed checked_sub carries Err(Error::Argument) built in this function."""
+    arg = [v["discr"] for v in prog.crate("llfree").adts["llfree::Error"]["variants"] if v["name"] == "Argument"][0]
+    seen = False
+    for rn in ps.return_nodes():
+        env = ps.term_env_of(rn)
+        if any(env.get(("c", sb)) == fail_status for sb in sub_sites):
+            seen = True
+            if ps.ret_discr(rn) != 1 or env.get(("d", 0, ("as1", ".0"))) != arg:
+                return False
+    return seen
 
 
 def _mentions_param_outside(t, name, is_barrier):
